@@ -7,6 +7,8 @@
 //!                simulated OS and report every disagreement;
 //! impl -> spec:  `tilde-random` / `cs-random` record what the real shell does on
 //!                random inputs; Trace_Tilde.tla / Trace_CmdSearch.tla judge the records;
+//! `cs-replay --real`: the same comparison on the REAL operating system (family "X"
+//!                of Gen_CmdSearch: every directory under the working directory);
 //! `one`:         re-runs a single replay record and writes the trace record.
 mod cmdsearch;
 mod common;
@@ -20,12 +22,14 @@ fn one(args: &[String]) -> i32 {
     std::io::BufRead::read_line(&mut util::open_in(args), &mut line).unwrap();
     let rec: serde_json::Value = serde_json::from_str(&line).expect("json");
     let mut out = util::open_out(args);
-    let rc = if rec["kind"] == "cs" { cmdsearch::one(&rec, &mut *out) } else { tilde::one(&rec, &mut *out) };
+    let real = args.iter().any(|a| a == "--real");
+    let rc = if rec["kind"] == "cs" { cmdsearch::one(&rec, real, &mut *out) } else { tilde::one(&rec, &mut *out) };
     out.flush().unwrap();
     rc
 }
 
 fn main() {
+    yvcommon::real::maybe_child_main();
     util::quiet_panics();
     let args: Vec<String> = std::env::args().collect();
     if args.len() < 2 {
